@@ -61,6 +61,12 @@ def run(ctx) -> None:
         floor=5,
     )
     check_rows(ctx, RNW, RB, RNW, RB, RSC, RNW)
+    from .c02 import record_path_from_live_map
+
+    record_path_from_live_map(ctx, RB)
+    from .c02 import failed_add_watch_is_a_failure
+
+    failed_add_watch_is_a_failure(ctx, RNW)
     ctx.instances[n0:] = [i for i in ctx.instances[n0:] if i.rule != _sink]
     del ctx.rules[_sink], ctx.floors[_sink]
     ctx.assumptions += [
